@@ -347,6 +347,49 @@ func checkOutcomeIsServers(c *Ctx, id string, s *asyncSite) {
 					}
 				}
 			})
+			// the channel may be handed to a helper of the module that receives from it and returns what it received
+			// (`return awaitDocument(op, docCh, errCh)`), whose result the wrapper returns
+			allInstrs(s.Fn, func(in ssa.Instruction) {
+				call, ok := in.(*ssa.Call)
+				if !ok || reached {
+					return
+				}
+				g := call.Common().StaticCallee()
+				if g == nil || g.Blocks == nil || !w.inModule(g) {
+					return
+				}
+				for i, a := range call.Common().Args {
+					if i >= len(g.Params) || resolveCell(a) != ch {
+						continue
+					}
+					allInstrs(g, func(x ssa.Instruction) {
+						u, isU := x.(*ssa.UnOp)
+						if !isU || u.Op != token.ARROW || unwrap(u.X) != ssa.Value(g.Params[i]) {
+							return
+						}
+						for _, k2 := range errorSinks(u) {
+							if k2.Kind != "return" {
+								continue
+							}
+							// … and the wrapper returns the helper's error result
+							res := g.Signature.Results()
+							var outer ssa.Value = call
+							if res.Len() > 1 {
+								outer = nil
+								for _, r3 := range *call.Referrers() {
+									if ex, isEx := r3.(*ssa.Extract); isEx && ex.Index == res.Len()-1 {
+										outer = ex
+									}
+								}
+							}
+							if outer != nil && reported(errorSinks(outer)) {
+								reached = true
+								how = "sent on " + w.Origin(ch) + ", received by " + fname(g) + " and returned through the wrapper"
+							}
+						}
+					})
+				}
+			})
 		case "return", "panic":
 			// a load of the captured cell in the enclosing function that reaches its return
 			if sk.In.Parent() != cb {
